@@ -2,6 +2,7 @@
 """store a confirmed sub-agent mutant:  tools/keep_mutant.py C05 /tmp/wt/C05-out/m1 C05-m1 "<needs>" """
 import sys, os, shutil, json, re, subprocess
 prop, out, name, needs = sys.argv[1:5]
+also = sys.argv[5].split(',') if len(sys.argv) > 5 else []
 dst = os.path.join('/verif/seeded', name)
 os.makedirs(dst, exist_ok=True)
 for f in os.listdir(out):
@@ -13,7 +14,7 @@ for f in os.listdir(out):
 log = open(os.path.join(out, 'confirm.log')).read()
 res = re.findall(r'^RESULT.*$', log, re.M)
 files = re.findall(r'^\+\+\+ b/(.*)$', open(os.path.join(out, 'patch.diff')).read(), re.M)
-meta = {'property': prop, 'name': name, 'files_changed': files, 'needs_to_manifest': needs,
+meta = {'property': prop, 'also_check': also, 'name': name, 'files_changed': files, 'needs_to_manifest': needs,
         'confirmed_by': 'tools/confirm_mutant.sh + tools/confirm_baseline.sh in a scratch worktree (removed afterwards): clean build + demo passes; patch applies, builds, demo fails; '
                         'the 61 pinned tests pass with the patch (network tests that collided on fixed ports under concurrent runs were retried serially)',
         'confirm_results': res,
